@@ -11,6 +11,8 @@ func TestVerifReplay(t *testing.T) {
 		"VerifC01Quick":    VerifC01Quick,
 		"VerifC01Thorough": VerifC01Thorough,
 		"VerifC17Walks":    VerifC17Walks,
+		"VerifC18Quick":    VerifC18Quick,
+		"VerifC18Thorough": VerifC18Thorough,
 		"VerifC03Quick":    VerifC03Quick,
 		"VerifC03Thorough": VerifC03Thorough,
 		"VerifC02TxQuick":    VerifC02TxQuick,
